@@ -211,6 +211,15 @@ def Shard.applyMods (s : Shard) : List (Nat × Option Entry) → Shard
 def Shard.rangeDoIn (oneSection : Bool) (f : RangeF) (s : Shard) (between : Shard → Shard) : Shard :=
   if oneSection then between (s.rangeDo f) else (between s).applyMods (s.collect f)
 
+/-- `shard.set` seen as two steps with other goroutines' operations on the shard (`between`) in the middle: first a
+look at the shard ("is the key stored?"), then the insert. `decidesWhenInserting = true` is the method as built: what the
+shard looked like earlier plays no role, the eviction is decided on the shard as it is when the entry goes in (one
+critical section). `false`: a key that was seen stored earlier is written without making room. -/
+def Shard.setIn (decidesWhenInserting : Bool) (max : Nat) (s : Shard) (e : Entry) (victims : List Nat) (between : Shard → Shard) : Shard :=
+  let seenStored := (s.lookup e.key).isSome
+  let s' := between s
+  if !decidesWhenInserting && seenStored then e :: s'.remove e.key else s'.set max e victims
+
 /-- operations of `concurrent_map.Map` (no expiry at this level: entries carry `exp = 0`) -/
 inductive MOp where
   | base (op : Op)                       -- set (= store at time 0), get, flush, len
